@@ -301,6 +301,61 @@ def unicode_cases():
     return cases
 
 
+# ---------------------------------------------------------------- size / count thresholds (seed C06-12)
+SIZE_WORDS_V = ["Task", "Http", "Io", "User", "Queue", "Started", "Error", "Id", "Moved", "Empty"]
+SIZE_WORDS_F = ["user", "id", "http", "url", "first", "last", "name", "queue", "io", "x"]
+
+
+def sized_cases():
+    """containers with MANY items: enums with 8..40 variants and structs with 8..100 fields, plain and Zod, under
+    rules and rename / skip mixes that make every wire name differ from its identifier (a layout branch that a
+    generator takes only above some member count must still print the serialized names)."""
+    cases = []
+    k = 0
+    for kind, counts, rules in (("enum", [8, 9, 10, 13, 16, 17, 25, 33, 40], [None, "snake_case", "SCREAMING_SNAKE_CASE", "kebab-case", "lowercase"]),
+                                ("struct", [8, 9, 16, 17, 33, 100], [None, "camelCase", "PascalCase", "SCREAMING-KEBAB-CASE"])):
+        for n in counts:
+            for rule in rules:
+                cattrs = cattrs_for(rule, 0, kind)
+                items = []
+                for i in range(n):
+                    if kind == "enum":
+                        ident = SIZE_WORDS_V[i % 10] + SIZE_WORDS_V[(i // 10 + i + 5) % 10] + (str(i) if i >= 10 else "")
+                        if any(it["ident"] == ident for it in items):
+                            ident += "X%d" % i
+                    else:
+                        ident = SIZE_WORDS_F[i % 10] + "_" + SIZE_WORDS_F[(i // 10 + i + 3) % 10] + ("_%d" % i if i >= 10 else "")
+                        if any(it["ident"] == ident for it in items):
+                            ident += "_y%d" % i
+                    attrs = []
+                    if (i + k) % 4 == 1 or rule is None and i % 2 == 0:
+                        attrs = [[["rename", "wire-%d" % i]]]
+                    elif (i + k) % 7 == 3:
+                        attrs = [[["skip"]]]
+                    elif (i + k) % 5 == 2:
+                        attrs = [[["other", "default"]]]
+                    items.append(shaped(kind, cattrs, ident, attrs, 0 if kind == "struct" else i + k))
+                cases.append({"kind": kind, "cattrs": cattrs, "items": items, "dfc": "snake_case", "ws": k % 3})
+                k += 1
+    return cases
+
+
+def config_grid():
+    """every container rename_all value (and none) x every default_field_case value on a struct with multi-word
+    fields (seed C06-13: a container rule must win over the configured case; without a rule the setting applies
+    and the case falls into C06-7)."""
+    cases = []
+    k = 0
+    for rule in [None] + RULES:
+        for dfc in RULES + ["bogusCase"]:
+            items = [{"ident": "user_id", "attrs": []}, {"ident": "first_last_name", "attrs": [[["other", "default"]]]},
+                     {"ident": "display_name", "attrs": [[["rename", "shown-as"]]] if k % 2 else []},
+                     {"ident": "tmp_val", "attrs": [[["skip"]]]}, {"ident": "a", "attrs": []}]
+            cases.append({"kind": "struct", "cattrs": cattrs_for(rule, k % 4 if rule else 0, "struct"), "items": items, "dfc": dfc, "ws": k % 3})
+            k += 1
+    return cases
+
+
 # ---------------------------------------------------------------- random containers
 def rand_ident(rng, kind):
     if rng.random() < 0.6:
